@@ -1,6 +1,7 @@
 (* C03 -- Events round-trip; their identity is a function of the redacted content.
    Statements only; the proofs are in Event/B64FactsC03.v, Event/RedactFactsC03.v,
-   Event/ProofsC03.v, Event/BuildMembersC03.v, Event/ProofsBuildC03.v, Event/ProofsIdC03.v.
+   Event/ProofsC03.v, Event/BuildMembersC03.v, Event/ProofsBuildC03.v, Event/ProofsIdC03.v,
+   Event/ProofsInjC03.v.
 
    H is the hash (SHA-256 in the library) and sgn the signing function: Section variables, any
    functions.  Where a claim needs something of H it is a stated premise:
@@ -13,10 +14,10 @@
    An event is the parsed JSON value of the bytes the library keeps (model: Event/ModelC03.v).
    The step through the bytes -- parse_json (canon_print j) = Some (normalise j) -- is C01's
    parse_canon_print; the correspondence runs every re-parse through the real bytes. *)
-From Verif Require Import Lib.Bytes Json.Ast Json.Print Json.Render Json.CanonFacts Gen.GenVersions.
+From Verif Require Import Lib.Bytes Json.Ast Json.Print Json.Render Json.CanonFacts Gen.GenVersions Gen.GenStrip.
 From Verif Require Import Event.Redact Event.RedactProofs.
 From Verif Require Import Event.ModelC03 Event.B64FactsC03 Event.RedactFactsC03 Event.ProofsC03
-  Event.BuildMembersC03 Event.ProofsBuildC03 Event.ProofsIdC03.
+  Event.BuildMembersC03 Event.ProofsBuildC03 Event.ProofsIdC03 Event.ProofsInjC03.
 Open Scope N_scope.
 
 (* ---------- the generated room-version table, as far as this property reads it ---------- *)
@@ -36,6 +37,15 @@ Theorem C03_version_table :
      (2, 3, 2, false)] /\
   forallb (fun v => (class_untrusted v =? class_trusted v) && (class_with_id v =? class_trusted v))
           (map fst gen_versions) = true.
+Proof. repeat split; vm_compute; reflexivity. Qed.
+
+(* the keys the model's untrusted parse strips, and the keys left out of the content hash, are
+   the delete-loops of the source (regenerated on every run) *)
+Theorem C03_strip_lists_match_source :
+  assoc_first (bs "newEventFromUntrustedJSONV1") gen_strip_lists = Some [strip_keys 1] /\
+  assoc_first (bs "newEventFromUntrustedJSONV2") gen_strip_lists = Some [strip_keys 2] /\
+  assoc_first (bs "newEventFromUntrustedJSONV3") gen_strip_lists = Some [strip_keys 3] /\
+  assoc_first (bs "checkEventContentHash") gen_strip_lists = Some [[k_signatures; k_unsigned; k_hashes]].
 Proof. repeat split; vm_compute; reflexivity. Qed.
 
 Section C03.
@@ -202,31 +212,40 @@ Section C03.
     ids_of (p_prev p1) = ids_of (p_prev p2) /\ ids_of (p_auth p1) = ids_of (p_auth p2).
   Proof. exact hashed_object_determines_fields. Qed.
 
-  (* PARTIAL.  With a collision-free H, two built events (formats 2 and 3) with the same ID were
-     built from proto-events that agree in every field other than unsigned and signatures.
-     Missing: two facts about C05's redaction model on built events are premises here and not
-     yet proved -- the reference objects r1, r2 are well-formed JSON values and still carry the
-     events' hashes member (C05 proves the latter for events with exact keys and plain content,
-     Props/C05.v redact_preserves_identity_fields). *)
-  Theorem event_id_injective_partial : forall ver p1 eid1 ts1 o1 k1 e1 p2 eid2 ts2 o2 k2 e2 r1 r2,
-    (forall x y, H x = H y -> x = y) -> hash_bytes H ->
-    build ver p1 eid1 ts1 o1 k1 = BOk e1 true -> build ver p2 eid2 ts2 o2 k2 = BOk e2 true ->
-    class_trusted ver <> 1 ->
-    reference_json ver (e_json e1) = Some r1 -> reference_json ver (e_json e2) = Some r2 ->
-    json_wf r1 -> json_wf r2 ->
-    jget k_hashes r1 = jget k_hashes (e_json e1) -> jget k_hashes r2 = jget k_hashes (e_json e2) ->
-    json_wf (JObj (build_members ver p1 eid1 ts1 o1)) -> json_wf (JObj (build_members ver p2 eid2 ts2 o2)) ->
-    event_id e1 = event_id e2 ->
+  (* With a collision-free H, two built events (formats 2 and 3, i.e. room versions 3 and later)
+     with the same ID were built from proto-events that agree in every field other than unsigned
+     and signatures, with the same timestamp and origin.  Contents are objects whose number
+     literals are grammatical (proto_wf; likewise the optional signatures and unsigned values).
+     Uses C05's redact_members_exact (the reference object keeps the hashes member) and C01's
+     canon_print_injective. *)
+  Definition same_event (p1 : proto) (ts1 : Z) (o1 : bytes) (p2 : proto) (ts2 : Z) (o2 : bytes) : Prop :=
     p_sender p1 = p_sender p2 /\ p_type p1 = p_type p2 /\ p_room p1 = p_room p2 /\
     p_skey p1 = p_skey p2 /\ p_redacts p1 = p_redacts p2 /\ p_depth p1 = p_depth p2 /\
     ts1 = ts2 /\ o1 = o2 /\ jequiv (p_content p1) (p_content p2) /\
     ids_of (p_prev p1) = ids_of (p_prev p2) /\ ids_of (p_auth p1) = ids_of (p_auth p2).
+
+  Theorem event_id_injective : forall ver p1 eid1 ts1 o1 k1 e1 c1 p2 eid2 ts2 o2 k2 e2 c2,
+    (forall x y, H x = H y -> x = y) -> hash_bytes H ->
+    build ver p1 eid1 ts1 o1 k1 = BOk e1 true -> build ver p2 eid2 ts2 o2 k2 = BOk e2 true ->
+    class_trusted ver <> 1 ->
+    p_content p1 = JObj c1 -> p_content p2 = JObj c2 -> proto_wf p1 -> proto_wf p2 ->
+    event_id e1 = event_id e2 -> same_event p1 ts1 o1 p2 ts2 o2.
   Proof.
-    intros ver p1 eid1 ts1 o1 k1 e1 p2 eid2 ts2 o2 k2 e2 r1 r2 Hinj HB Hb1 Hb2 Hc R1 R2 W1 W2 K1 K2 M1 M2 E.
-    pose proof (build_built H sgn _ _ _ _ _ _ _ Hb1) as B1. pose proof (build_built H sgn _ _ _ _ _ _ _ Hb2) as B2.
-    destruct (shape_facts ver (b_known _ _ _ _ _ _ _ B1)) as (_ & _ & _ & _ & Hc2 & _). destruct (Hc2 Hc) as [Hf _].
-    apply (hashed_object_determines_fields ver p1 eid1 ts1 o1 p2 eid2 ts2 o2 Hf).
-    exact (equal_ids_equal_hashed_objects H ver p1 eid1 ts1 o1 e1 p2 eid2 ts2 o2 e2 r1 r2 Hinj HB B1 B2 Hc R1 R2 W1 W2 K1 K2 M1 M2 E).
+    intros ver p1 eid1 ts1 o1 k1 e1 c1 p2 eid2 ts2 o2 k2 e2 c2 Hinj HB Hb1 Hb2 Hc C1 C2 W1 W2 E.
+    exact (built_event_id_injective H ver p1 eid1 ts1 o1 e1 c1 p2 eid2 ts2 o2 e2 c2 Hinj HB
+             (build_built H sgn _ _ _ _ _ _ _ Hb1) (build_built H sgn _ _ _ _ _ _ _ Hb2) Hc C1 C2 W1 W2 E).
+  Qed.
+
+  (* the same, read the other way: a difference in any field gives a different ID *)
+  Theorem different_events_different_ids : forall ver p1 eid1 ts1 o1 k1 e1 c1 p2 eid2 ts2 o2 k2 e2 c2,
+    (forall x y, H x = H y -> x = y) -> hash_bytes H ->
+    build ver p1 eid1 ts1 o1 k1 = BOk e1 true -> build ver p2 eid2 ts2 o2 k2 = BOk e2 true ->
+    class_trusted ver <> 1 ->
+    p_content p1 = JObj c1 -> p_content p2 = JObj c2 -> proto_wf p1 -> proto_wf p2 ->
+    ~ same_event p1 ts1 o1 p2 ts2 o2 -> event_id e1 <> event_id e2.
+  Proof.
+    intros ver p1 eid1 ts1 o1 k1 e1 c1 p2 eid2 ts2 o2 k2 e2 c2 Hinj HB Hb1 Hb2 Hc C1 C2 W1 W2 Hn E.
+    apply Hn. eapply event_id_injective; eassumption.
   Qed.
 End C03.
 
@@ -241,9 +260,10 @@ Proof.
   apply repeat_spec in Hb. subst. reflexivity.
 Qed.
 
-(* an injective byte-valued "hash" (every N as that many ones and a zero): collision-freeness
-   and hash_bytes hold together *)
-Definition enc_n (n : N) : bytes := repeat 1 (N.to_nat n) ++ [0].
+(* an injective byte-valued "hash" (a prefix-free code: a value below 255 as itself, a larger one
+   as 255, that many ones less 255, and a zero): collision-freeness and hash_bytes hold together,
+   and digests of byte strings are short enough for Build to succeed (last Example) *)
+Definition enc_n (n : N) : bytes := if n <? 255 then [n] else 255 :: repeat 1 (N.to_nat (n - 255)) ++ [0].
 Definition H_inj (x : bytes) : bytes := flat_map enc_n x.
 
 Lemma ones_inj : forall n n' (r r' : bytes),
@@ -256,21 +276,32 @@ Qed.
 
 Lemma enc_n_inj : forall a r a' r', enc_n a ++ r = enc_n a' ++ r' -> a = a' /\ r = r'.
 Proof.
-  intros a r a' r' E. unfold enc_n in E. rewrite <- !app_assoc in E. simpl in E.
-  apply ones_inj in E as [A B]. apply N2Nat.inj in A. auto.
+  intros a r a' r' E. unfold enc_n in E.
+  destruct (N.ltb_spec a 255) as [Ha|Ha], (N.ltb_spec a' 255) as [Ha'|Ha']; simpl in E.
+  - inversion E. auto.
+  - inversion E. lia.
+  - inversion E. lia.
+  - inversion E as [E']. rewrite <- !app_assoc in E'. simpl in E'. apply ones_inj in E' as [A B].
+    split; [lia|exact B].
+Qed.
+
+Lemma enc_n_bytes a : Forall is_byte (enc_n a).
+Proof.
+  unfold enc_n. destruct (N.ltb_spec a 255) as [Ha|Ha].
+  - repeat constructor. unfold is_byte. lia.
+  - constructor; [reflexivity|]. apply Forall_app. split; [|repeat constructor].
+    apply Forall_forall. intros b Hb. apply repeat_spec in Hb. subst. reflexivity.
 Qed.
 
 Example injective_premises_inhabited : (forall x y, H_inj x = H_inj y -> x = y) /\ hash_bytes H_inj.
 Proof.
   split.
   - induction x as [|a x IH]; intros [|b y] E; simpl in E; try reflexivity.
-    + unfold enc_n in E. destruct (repeat 1 (N.to_nat b)); discriminate.
-    + unfold enc_n in E. destruct (repeat 1 (N.to_nat a)); discriminate.
+    + unfold enc_n in E. destruct (b <? 255); discriminate.
+    + unfold enc_n in E. destruct (a <? 255); discriminate.
     + apply enc_n_inj in E as [A B]. subst. f_equal. apply IH. exact B.
   - intro x. unfold H_inj. induction x as [|a x IH]; simpl; [constructor|].
-    apply Forall_app. split; [|exact IH]. unfold enc_n. apply Forall_app. split.
-    + apply Forall_forall. intros b Hb. apply repeat_spec in Hb. subst. reflexivity.
-    + repeat constructor.
+    apply Forall_app. split; [apply enc_n_bytes|exact IH].
 Qed.
 
 (* Build succeeds on a concrete message event (room version 10) and on a concrete room version 12
@@ -293,7 +324,21 @@ Proof.
   - eexists. split; [vm_compute; reflexivity|]. split; vm_compute; reflexivity.
 Qed.
 
+(* under the injective hash: two concrete builds that differ in the depth only have different IDs *)
+Definition ex_proto' : proto :=
+  mkProto (bs "@alice:example.org") (bs "!r:example.org") (bs "m.room.message") None
+          (Ids [bs "$abc"]) IdsNil [] 6%Z None (JObj [(bs "body", JStr (bs "hi"))])
+          (Some (JObj [(bs "age", JNum (bs "1"))])).
+
+Example injective_instance :
+  exists e1 e2,
+    build H_inj S_const (bs "10") ex_proto [] 1000%Z (bs "example.org") (bs "ed25519:1") = BOk e1 true /\
+    build H_inj S_const (bs "10") ex_proto' [] 1000%Z (bs "example.org") (bs "ed25519:1") = BOk e2 true /\
+    bytes_eqb (event_id H_inj e1) (event_id H_inj e2) = false.
+Proof. do 2 eexists. split; [vm_compute; reflexivity|]. split; vm_compute; reflexivity. Qed.
+
 Print Assumptions C03_version_table.
+Print Assumptions C03_strip_lists_match_source.
 Print Assumptions build_fields.
 Print Assumptions build_reparse_trusted.
 Print Assumptions build_reparse_headered.
@@ -309,4 +354,5 @@ Print Assumptions v12_create_room_id.
 Print Assumptions v12_first_auth_is_create.
 Print Assumptions v12_survives_edits.
 Print Assumptions hashed_object_fixes_every_field.
-Print Assumptions event_id_injective_partial.
+Print Assumptions event_id_injective.
+Print Assumptions different_events_different_ids.
